@@ -23,6 +23,12 @@ def cases(seed, tier):
         out.append({"group": "reassign", "seed": sub_seed(seed, "c02xs", i), "fwd": fwd[i % len(fwd)], "emode": ["none", "E", "EM"][(i // 6) % 3],
                     "steps": rng.choice([2, 3]), "chain": rng.random() < 0.6, "n": rng.choice([3, 6, 7]), "ncols": rng.choice([1, 2]),
                     "bck": rng.choice(["same", "bicgstab", "default_tight"]), "batch": rng.choice([(), (2,)]), "reassign_m": rng.random() < 0.5})
+    # operators WITHOUT tensor parameters (a fixed stencil): A, M or both - B, E and the other operator's tensors still get their gradients
+    nnp = 36 if tier == "quick" else 360
+    for i in range(nnp):
+        rng = random.Random(sub_seed(seed, "c02xn", i))
+        out.append({"group": "reassign", "kind": "noparam", "seed": sub_seed(seed, "c02xns", i), "fwd": ["bicgstab", "cg", "custom_exactsolve", None, "broyden1", "exactsolve"][i % 6],
+                    "which": ["A", "M", "both", "A"][(i // 6) % 4], "emode": ["none", "E", "EM", "EM"][(i // 2) % 4], "n": rng.choice([4, 6, 8]), "ncols": rng.choice([1, 2])})
     # the ALIAS STRUCTURE of the operator's tensors changes between two solves on one object (two slots hold one tensor, then two tensors;
     # or the reverse)
     nal = 36 if tier == "quick" else 360
@@ -66,6 +72,111 @@ def _dense(d, U):
 
 class _Injected(Exception):
     pass
+
+
+def run_noparam(desc):
+    import xitorch
+    from xitorch.linalg import solve
+    obs = Obs(desc)
+    tg = torch.Generator().manual_seed(desc["seed"])
+    n, ncols, fwd, which, emode = desc["n"], desc["ncols"], desc["fwd"], desc["which"], desc["emode"]
+    if which in ("M", "both") and emode != "EM":
+        emode = "EM"
+    Op = _mk_classes()
+
+    class Stencil(xitorch.LinearOperator):
+        """c I + tridiag(-1, 0, -1) * h: no tensor parameter at all"""
+
+        def __init__(self, c, h):
+            super().__init__(shape=(n, n), is_hermitian=True, dtype=DT, device=torch.device("cpu"))
+            self.c, self.h = c, h
+
+        def _mv(self, x):
+            z = torch.zeros_like(x)
+            return self.c * x - self.h * (torch.cat([x[..., 1:], z[..., :1]], -1) + torch.cat([z[..., :1], x[..., :-1]], -1))
+
+        def _getparamnames(self, prefix=""):
+            return []
+
+    def stencil_dense(c, h):
+        return c * torch.eye(n, dtype=DT) - h * (torch.diag_embed(torch.ones(n - 1, dtype=DT), offset=1) + torch.diag_embed(torch.ones(n - 1, dtype=DT), offset=-1))
+
+    def rn(*s, scale=1.0):
+        return torch.randn(*s, dtype=DT, generator=tg) * scale
+    leaves, names = [], []
+    if which in ("A", "both"):
+        Aop, Adense = Stencil(3.0, 0.8), (lambda lv: stencil_dense(3.0, 0.8))
+    else:
+        d = (2.0 + torch.rand(n, dtype=DT, generator=tg)).requires_grad_()
+        U = rn(n, 2, scale=0.4).requires_grad_()
+        leaves += [d, U]
+        names += ["A.d", "A.U"]
+        Aop, Adense = Op(d, U), (lambda lv: _dense(lv["A.d"], lv["A.U"]))
+    Mop = Mdense = None
+    if emode == "EM":
+        if which in ("M", "both"):
+            Mop, Mdense = Stencil(1.5, 0.3), (lambda lv: stencil_dense(1.5, 0.3))
+        else:
+            md = (1.0 + 0.5 * torch.rand(n, dtype=DT, generator=tg)).requires_grad_()
+            mU = rn(n, 1, scale=0.3).requires_grad_()
+            leaves += [md, mU]
+            names += ["M.d", "M.U"]
+            Mop, Mdense = Op(md, mU), (lambda lv: _dense(lv["M.d"], lv["M.U"]))
+    B = rn(n, ncols).requires_grad_()
+    leaves.append(B)
+    names.append("B")
+    E = None
+    if emode != "none":
+        E = (-0.2 - 0.5 * torch.rand(ncols, dtype=DT, generator=tg)).requires_grad_()
+        leaves.append(E)
+        names.append("E")
+    fopts = {}
+    if fwd in ("cg", "bicgstab") or (fwd is None and n > 5):
+        fopts = dict(rtol=1e-11, atol=1e-13, max_niter=20 * n + 40)
+    elif fwd == "broyden1":
+        fopts = dict(f_tol=1e-11, x_tol=1e-10)
+    bopts = dict(method="bicgstab", rtol=1e-11, atol=1e-13, max_niter=20 * n + 40) if fwd != "exactsolve" else {}
+    mech = "noparam:%s:%s:%s" % (which, fwd or "auto", emode)
+    C = rn(n, ncols)
+    D = [rn(*t.shape) for t in leaves]
+    with WarnLog() as wl:
+        try:
+            X = solve(Aop, B, E, Mop, method=fwd, bck_options=dict(bopts), **fopts)
+            g1 = torch.autograd.grad((X * C).sum(), leaves, create_graph=True, allow_unused=True)
+            S = sum((gi * di).sum() for gi, di in zip(g1, D) if gi is not None and gi.requires_grad)
+            g2 = torch.autograd.grad(S, leaves, allow_unused=True) if isinstance(S, torch.Tensor) and S.requires_grad else [None] * len(leaves)
+        except Exception as e:
+            obs.exc_violation("reassign:noparam:call:" + mech, e)
+            obs.nontrivial = True
+            return obs.result()
+    if wl.convergence:
+        obs.count("reassign_forward_warned")
+        return obs.result()
+    l2 = [t.detach().clone().requires_grad_() for t in leaves]
+    lv = dict(zip(names, l2))
+    Ad = Adense(lv)
+    if E is None:
+        Sx = Ad.unsqueeze(-3).expand(ncols, n, n)
+    else:
+        Md = Mdense(lv) if Mdense is not None else torch.eye(n, dtype=DT)
+        Sx = Ad.unsqueeze(-3) - lv["E"].reshape(ncols, 1, 1) * Md.unsqueeze(-3)
+    Xr = torch.linalg.solve(Sx, lv["B"].transpose(-2, -1).unsqueeze(-1)).squeeze(-1).transpose(-2, -1)
+    r1 = torch.autograd.grad((Xr * C).sum(), l2, create_graph=True, allow_unused=True)
+    S2 = sum((gi * di).sum() for gi, di in zip(r1, D) if gi is not None and gi.requires_grad)
+    r2 = torch.autograd.grad(S2, l2, allow_unused=True) if isinstance(S2, torch.Tensor) and S2.requires_grad else [None] * len(l2)
+    err = float((X.detach() - Xr.detach()).abs().max())
+    obs.check(err <= 1e-7 * (1 + float(Xr.detach().abs().max())), "reassign:noparam:value:" + mech, "solution differs from the dense one by %.3e" % err)
+    for order, gs, rs, tol in (("first", g1, r1, 1e-6), ("second", g2, r2, 1e-5)):
+        sc = max([1.0] + [float(r.detach().abs().max()) for r in rs if r is not None])
+        for nm, g, r, t in zip(names, gs, rs, leaves):
+            g = torch.zeros_like(t) if g is None else g.detach()
+            r = torch.zeros_like(t) if r is None else r.detach()
+            e_ = float((g - r).abs().max())
+            obs.check(e_ <= tol * sc, "reassign:noparam:grad_%s:%s:%s" % (order, nm.split(".")[0], mech), "%s-order gradient w.r.t. %s (operator without tensor parameters: %s) differs from "
+                      "the dense reference by %.3e (scale %.2e)" % (order, nm, which, e_, sc))
+    obs.count("noparam_compared")
+    obs.nontrivial = True
+    return obs.result()
 
 
 def run_alias_change(desc):
@@ -274,6 +385,8 @@ def run_case(desc):
         return run_abort(desc)
     if desc.get("kind") == "alias_change":
         return run_alias_change(desc)
+    if desc.get("kind") == "noparam":
+        return run_noparam(desc)
     from xitorch.linalg import solve
     obs = Obs(desc)
     tg = torch.Generator().manual_seed(desc["seed"])
